@@ -48,6 +48,8 @@ def to_pym(e):
         if e[1] == "sub":
             return p.Subscript(a, b)
         return p.Comparison(a, CMP[e[1]], b)
+    if k == "pow":
+        return p.Power(to_pym(e[1]), to_pym(e[2]))
     if k == "nary":
         ch = tuple(to_pym(c) for c in e[2])
         return {"sum": p.Sum, "prod": p.Product, "min": p.Min, "max": p.Max,
@@ -91,6 +93,8 @@ def from_pym(x):
     if isinstance(x, p.Comparison):
         inv = {v: k for k, v in CMP.items()}
         return ["bin", inv[x.operator], from_pym(x.left), from_pym(x.right)]
+    if isinstance(x, p.Power):
+        return ["pow", from_pym(x.base), from_pym(x.exponent)]
     for cls, nm in ((p.Sum, "sum"), (p.Product, "prod"), (p.Min, "min"), (p.Max, "max"),
                     (p.LogicalAnd, "and"), (p.LogicalOr, "or")):
         if isinstance(x, cls):
@@ -385,8 +389,9 @@ def access_to_coq(a):
 class Gen:
     """Random, mostly well-typed expressions over int scalars, bool flags and int arrays."""
 
-    def __init__(self, rng, ints, arrs=(), flags=(), funcs=("<func>f", "<func>g2x"), loopvars=()):
+    def __init__(self, rng, ints, arrs=(), flags=(), funcs=("<func>f", "<func>g2x"), loopvars=(), pow_nodes=False):
         self.rng = rng
+        self.pow_nodes = pow_nodes
         self.ints = list(ints)
         self.arrs = list(arrs)
         self.flags = list(flags)
@@ -402,6 +407,12 @@ class Gen:
                 return ["var", r.choice(pool)]
             return ["int", r.randint(-3, 6)]
         c = r.random()
+        if self.pow_nodes and r.random() < 0.25:
+            # small powers incl. nested ones and negative constant bases (outside the Coq model)
+            base = r.choice([self.int_expr(d - 1), ["int", r.choice([-2, -1, 2, 3])],
+                             ["pow", self.int_expr(0), ["int", r.choice([0, 1, 2])]]])
+            ex = r.choice([["int", 0], ["int", 1], ["int", 2], ["pow", ["int", 2], ["int", r.choice([0, 1, 2])]]])
+            return ["bin", "rem", ["pow", base, ex], ["int", 97]]
         if c < 0.25:
             return ["nary", "sum", [self.int_expr(d - 1) for _ in range(r.randint(2, 3))]]
         if c < 0.4:
@@ -439,8 +450,11 @@ class Gen:
             if self.flags and r.random() < 0.5:
                 return ["var", r.choice(self.flags)]
             return ["bin", r.choice(list(CMP)), self.int_expr(1), self.int_expr(1)]
-        if c < 0.5:
+        if c < 0.4:
             return ["not", self.bool_expr(d - 1)]
+        if c < 0.5:
+            # a comparison compared with a truth value (Python would chain `a < b == True`)
+            return ["bin", r.choice(["eq", "ne"]), self.bool_expr(0), ["bool", r.random() < 0.5]]
         if c < 0.8:
             return ["nary", r.choice(["and", "or"]), [self.bool_expr(d - 1) for _ in range(r.randint(2, 3))]]
         return ["bin", r.choice(list(CMP)), self.int_expr(d - 1), self.int_expr(d - 1)]
@@ -461,4 +475,6 @@ def expr_vars(e):
         return set().union(*[expr_vars(c) for c in e[2]]) if e[2] else set()
     if k == "call":
         return set().union(set(), *[expr_vars(c) for c in e[2]], *[expr_vars(v) for _, v in e[3]])
+    if k == "pow":
+        return expr_vars(e[1]) | expr_vars(e[2])
     return set()
